@@ -1,0 +1,104 @@
+//go:build verif
+
+package pppoe
+
+// Add-only verification hooks for property C09 (no packet from the network can
+// crash or hang the gateway).  Nothing here changes behaviour; the file is
+// compiled only with `-tags verif`.  The hooks give the harness (a) a Server
+// whose raw socket is an in-memory queue and (b) synchronous access to the
+// unexported frame entry points, so that a panic unwinds into the caller.
+
+import (
+	"context"
+	"errors"
+	"net"
+	"sync"
+
+	"go.uber.org/zap"
+)
+
+// verifC09Socket implements rawSocket over an in-memory queue.
+type verifC09Socket struct {
+	mu      sync.Mutex
+	rx      [][]byte
+	sent    int
+	onEmpty func()
+}
+
+func (v *verifC09Socket) open(iface string, etherType uint16) error { return nil }
+func (v *verifC09Socket) close() error                              { return nil }
+
+func (v *verifC09Socket) recv(buf []byte) (int, error) {
+	v.mu.Lock()
+	defer v.mu.Unlock()
+	if len(v.rx) == 0 {
+		if v.onEmpty != nil {
+			v.onEmpty()
+		}
+		return 0, errors.New("verif: queue empty")
+	}
+	n := copy(buf, v.rx[0]) // a real AF_PACKET recv truncates to the buffer as well
+	v.rx = v.rx[1:]
+	return n, nil
+}
+
+func (v *verifC09Socket) send(iface string, dstMAC net.HardwareAddr, etherType uint16, data []byte) error {
+	v.mu.Lock()
+	v.sent++
+	v.mu.Unlock()
+	return nil
+}
+
+// VerifC09NewServer builds a Server exactly like NewServerWithInterface and
+// installs the in-memory socket (what Start does with the platform socket).
+func VerifC09NewServer(cfg ServerConfig, mac net.HardwareAddr) (*Server, error) {
+	s, err := NewServerWithInterface(cfg, zap.NewNop(), &net.Interface{Index: 1, MTU: 1500, Name: cfg.Interface, HardwareAddr: mac})
+	if err != nil {
+		return nil, err
+	}
+	s.socket = &verifC09Socket{}
+	return s, nil
+}
+
+// VerifC09Discovery calls the discovery-frame entry point (payload after the Ethernet header).
+func (s *Server) VerifC09Discovery(src net.HardwareAddr, payload []byte) {
+	s.handleDiscovery(src, payload)
+}
+
+// VerifC09Session calls the session-frame entry point (payload after the Ethernet header).
+func (s *Server) VerifC09Session(src net.HardwareAddr, payload []byte) { s.handleSession(src, payload) }
+
+// VerifC09Receive queues whole Ethernet frames and runs the real receiveLoop
+// in the calling goroutine until the queue is drained.
+func (s *Server) VerifC09Receive(frames [][]byte) {
+	sock := s.socket.(*verifC09Socket)
+	ctx, cancel := context.WithCancel(context.Background())
+	defer cancel()
+	sock.mu.Lock()
+	sock.rx = append(sock.rx[:0], frames...)
+	sock.onEmpty = cancel
+	sock.mu.Unlock()
+	defer func() {
+		sock.mu.Lock()
+		sock.rx = nil
+		sock.mu.Unlock()
+	}()
+	s.receiveLoop(ctx)
+}
+
+// VerifC09SessionState reports the state of session id (false if absent).
+func (s *Server) VerifC09SessionState(id uint16) (SessionState, bool) {
+	x := s.sessions.GetSession(id)
+	if x == nil {
+		return 0, false
+	}
+	return x.GetState(), true
+}
+
+// VerifC09Sent returns how many frames the server has sent.
+func (s *Server) VerifC09Sent() int {
+	sock := s.socket.(*verifC09Socket)
+	sock.mu.Lock()
+	defer sock.mu.Unlock()
+	return sock.sent
+}
